@@ -3,6 +3,9 @@
 //@ include prelude/sync.rs
 //@ include prelude/combinators.rs
 
+pub assume_specification<T>[ core::mem::replace ](dest: &mut T, src: T) -> (r: T)
+    ensures *final(dest) == src, r == *old(dest);
+
 pub mod flexi_error {
     use super::*;
     /// SHIM (trusted): reduced FlexiLoggerError (see units/state.rs)
